@@ -11,7 +11,7 @@ runner then uses the committed baseline copy and the tie rests on the correspond
 Typing conventions (the trusted part of this translator):
   dt      datetime.datetime               Model dt
   td      datetime.timedelta              Z (microseconds)
-  secs    a Python number of seconds      Z (microseconds: timedelta(seconds=x) is computed by CPython in the harness)
+  secs    a Python int or float of seconds  pynum; timedelta(seconds=x) = td_of_seconds (binary64 model, may raise)
   targ    "datetime or str" argument      targ (TDt | TStr); used as a datetime -> as_dt (AttributeError for str)
   num     int/float results               fexp (symbolic, evaluated with CPython floats by the harness)
   optdt / opttd / optstr                  option
@@ -33,10 +33,15 @@ FAILCLOSED = {'generate': [{'src': 'oslo_utils/timeutils.py', 'mod': 'oslo_utils
                   'set_time_override': {'defaults': {'override_time': 'None'}}, 'advance_time_delta': _NOD, 'advance_time_seconds': _NOD,
                   'clear_time_override': _NOD, 'marshall_now': {'defaults': {'now': 'None'}}, 'unmarshall_time': _NOD,
                   'delta_seconds': _NOD, 'is_soon': _NOD},
-    'imports': {'datetime': 'datetime', 'iso8601': 'iso8601', 'zoneinfo': 'zoneinfo', 'time': 'time', 'calendar': 'calendar'}}]}
+    'imports': {'datetime': 'datetime', 'iso8601': 'iso8601', 'zoneinfo': 'zoneinfo', 'time': 'time', 'calendar': 'calendar'}},
+   {'src': 'oslo_utils/fixture.py', 'mod': 'oslo_utils.fixture',
+    'classes': {'TimeFixture': {'bases': ['fixtures.Fixture'], 'methods': ['__init__', 'setUp', 'advance_time_delta', 'advance_time_seconds']}},
+    'functions': {'TimeFixture.__init__': {'defaults': {'override_time': 'None'}}, 'TimeFixture.setUp': _NOD,
+                  'TimeFixture.advance_time_delta': _NOD, 'TimeFixture.advance_time_seconds': _NOD},
+    'imports': {'timeutils': 'oslo_utils.timeutils', 'fixtures': 'fixtures'}}]}
 
 FIELDS7 = ['day', 'month', 'year', 'hour', 'minute', 'second', 'microsecond']
-COQ_TY = {'dt': 'dt', 'td': 'Z', 'secs': 'Z', 'targ': 'targ', 'bool': 'bool', 'int': 'Z', 'num': 'fexp', 'optdt': 'option dt',
+COQ_TY = {'dt': 'dt', 'td': 'Z', 'secs': 'pynum', 'targ': 'targ', 'bool': 'bool', 'int': 'Z', 'num': 'fexp', 'optdt': 'option dt',
           'opttd': 'option Z', 'str': 'str', 'optstr': 'option str', 'mrec': 'mrec', 'zone': 'zone', 'unit': 'unit', 'ov': 'override'}
 CMP = {ast.Lt: 'CLt', ast.LtE: 'CLe', ast.Gt: 'CGt', ast.GtE: 'CGe'}
 
@@ -182,11 +187,11 @@ class Tr:
             if nargs == 0 and kws == ['seconds']:
                 a = self.ex(e.keywords[0].value)
                 if a[1] != 'secs': raise Unsupported('timedelta(seconds=%s)' % a[1])
-                return self.seq([a], lambda x: ('(td_of_seconds %s)' % x[0], 'td', False))
+                return self.seq([a], lambda x: ('(lift (td_of_seconds %s))' % x[0], 'td', True))
             if nargs == 2 and not kws:
                 a, b = self.ex(e.args[0]), self.ex(e.args[1])
                 if (a[1], b[1]) != ('int', 'secs'): raise Unsupported('timedelta(%s, %s)' % (a[1], b[1]))
-                return self.seq([a, b], lambda x: ('(td_of_days_seconds %s %s)' % (x[0], x[1]), 'td', False))
+                return self.seq([a, b], lambda x: ('(lift (td_of_days_seconds %s %s))' % (x[0], x[1]), 'td', True))
             raise Unsupported('timedelta call ' + self.src(e))
         if fn == 'datetime.datetime':
             kw = self.kwargs(e, FIELDS7)
@@ -461,6 +466,44 @@ def template(tree, name):
         raise GenError('%s no longer has the recognised shape' % name)
     return coq
 
+FIXTURE_REF = '''
+class TimeFixture(fixtures.Fixture):
+    def __init__(self, override_time=None):
+        super().__init__()
+        self._override_time = override_time
+    def setUp(self):
+        super().setUp()
+        timeutils.set_time_override(self._override_time)
+        self.addCleanup(timeutils.clear_time_override)
+    def advance_time_delta(self, timedelta):
+        timeutils.advance_time_delta(timedelta)
+    def advance_time_seconds(self, seconds):
+        timeutils.advance_time_seconds(seconds)
+'''
+FIXTURE_COQ = '''(* oslo_utils.fixture.TimeFixture: setUp = set_time_override(the constructor argument) + clear_time_override registered as
+   clean-up; the advance methods call the module functions (the fixture keeps no instant of its own) *)
+Definition gen_fixture_setUp (v_override_time : override) : M unit := gen_set_time_override v_override_time.
+Definition gen_fixture_cleanUp : M unit := gen_clear_time_override.
+Definition gen_fixture_advance_time_delta (v_timedelta : Z) : M unit := gen_advance_time_delta v_timedelta.
+Definition gen_fixture_advance_time_seconds (v_seconds : SECS_TY) : M unit := gen_advance_time_seconds v_seconds.
+'''
+
+def fixture_template():
+    tree = repo_ast('oslo_utils/fixture.py')
+    ref = ast.parse(FIXTURE_REF).body[0]
+    cls = [n for n in tree.body if isinstance(n, ast.ClassDef) and n.name == 'TimeFixture']
+    if len(cls) != 1: raise GenError('TimeFixture not found')
+    cls = cls[0]
+    def methods(c):
+        out = {}
+        for n in strip_doc(c.body):
+            if not isinstance(n, ast.FunctionDef): raise GenError('TimeFixture has a non-method member')
+            out[n.name] = (ast.dump(n.args), [ast.dump(x) for x in strip_doc(n.body)], [ast.dump(d) for d in n.decorator_list])
+        return out
+    if [ast.dump(b) for b in cls.bases] != [ast.dump(b) for b in ref.bases] or cls.keywords or cls.decorator_list or methods(cls) != methods(ref):
+        raise GenError('TimeFixture no longer has the recognised shape')
+    return FIXTURE_COQ.replace('SECS_TY', COQ_TY['secs'])
+
 def generate():
     failclosed.check_all(FAILCLOSED['generate'])
     m = repo_import('oslo_utils.timeutils')
@@ -489,6 +532,7 @@ def generate():
     out.append(translate(tree, 'unmarshall_time', [('tyme', 'mrec')], 'dt', consts))
     out.append(translate(tree, 'delta_seconds', [('before', 'dt'), ('after', 'dt')], 'num', consts))
     out.append(translate(tree, 'is_soon', [('dt', 'targ'), ('window', 'secs')], 'bool', consts))
+    out.append(fixture_template())
     return '\n'.join(out)
 
 def translate_clear(tree):
